@@ -36,6 +36,7 @@ fn shape_strategy() -> impl Strategy<Value = Shape> {
         2 => (1u8..=8).prop_map(Shape::Clustered),
         2 => (1u16..=600).prop_map(Shape::LogUniform),
         1 => Just(Shape::Extreme),
+        2 => (2u8..=90).prop_map(Shape::AtomInCloud),
     ]
 }
 
@@ -122,8 +123,28 @@ pub fn check_digest(td: &mut TDigestMut, sorted: &[f64], gseed: u64, wide: bool,
             probes.push(mid);
         }
     }
+    // the population statistics (calibrated on the probe set above) do not see the probes added from here on
+    let population_probes = probes.len();
+    // extra probes: the data points on either side of every heavy atom (>= 2 % of the stream), and half-way to them
+    {
+        let mut i = 0usize;
+        while i < n {
+            let j = sorted.partition_point(|x| *x <= sorted[i]);
+            if (j - i) * 50 >= n && j - i >= 2 {
+                if i > 0 {
+                    probes.push(sorted[i - 1]);
+                    probes.push(sorted[i - 1] / 2.0 + sorted[i] / 2.0);
+                }
+                if j < n {
+                    probes.push(sorted[j]);
+                    probes.push(sorted[j] / 2.0 + sorted[i] / 2.0);
+                }
+            }
+            i = j;
+        }
+    }
     let mut worst = 0.0f64;
-    for &v in &probes {
+    for (pi, &v) in probes.iter().enumerate() {
         let lt = sorted.partition_point(|x| *x < v);
         let le = sorted.partition_point(|x| *x <= v);
         let t = (lt + le) as f64 / (2.0 * nf);
@@ -142,7 +163,9 @@ pub fn check_digest(td: &mut TDigestMut, sorted: &[f64], gseed: u64, wide: bool,
         let unit = t * (1.0 - t) * z / (2.0 * k as f64);
         let allowed = acc_factor * unit + 1.5 / nf + atom;
         let ratio = (err - 1.5 / nf - atom).max(0.0) / unit.max(1e-300);
-        worst = worst.max(ratio);
+        if pi < population_probes {
+            worst = worst.max(ratio);
+        }
         if err > allowed && std::env::var("VERIF_C15_CALIBRATE").is_err() {
             let clause = if wide { "C15.rank_error[shape=loguniform-wide]" } else { "C15.rank_error" };
             fail!(
@@ -163,7 +186,7 @@ pub fn run_case(c: &Case, info: &mut CaseInfo) -> Result<(), Fail> {
     let wide = c.parts.iter().flatten().any(is_wide);
     let all_runs: Vec<&Run> = c.parts.iter().flatten().collect();
     let homog = all_runs.iter().all(|r| r.exp10 == all_runs[0].exp10 && r.shift == all_runs[0].shift)
-        && !all_runs.iter().any(|r| matches!(r.shape, Shape::LogUniform(_) | Shape::Extreme));
+        && !all_runs.iter().any(|r| matches!(r.shape, Shape::LogUniform(_) | Shape::Extreme | Shape::AtomInCloud(_)));
     let acc = if homog { ACC_FACTOR_HOMOG } else { ACC_FACTOR_MIXED };
     let mut digests: Vec<(TDigestMut, Vec<f64>)> = vec![];
     let mut worst = 0.0f64;
@@ -236,7 +259,7 @@ pub fn run_case(c: &Case, info: &mut CaseInfo) -> Result<(), Fail> {
         let d = c.parts.iter().flatten().filter_map(|r| if let Shape::LogUniform(d) = r.shape { Some(d) } else { None }).max().unwrap_or(0);
         let b = match d { 0 => "0", 1 => "1", 2 => "2", 3 => "3", 4..=5 => "4-5", 6..=10 => "6-10", 11..=30 => "11-30", 31..=100 => "31-100", _ => ">100" };
         let runs: Vec<&Run> = c.parts.iter().flatten().collect();
-        let homog = runs.iter().all(|r| r.exp10 == runs[0].exp10 && r.shift == runs[0].shift) && !runs.iter().any(|r| matches!(r.shape, Shape::Extreme));
+        let homog = runs.iter().all(|r| r.exp10 == runs[0].exp10 && r.shift == runs[0].shift) && !runs.iter().any(|r| matches!(r.shape, Shape::Extreme | Shape::AtomInCloud(_)));
         info.label(format!("cal:{}:decades={b}:ratio<={}", if homog { "homog" } else { "mixed" }, if worst <= 1.0 { "1" } else if worst <= 2.0 { "2" } else if worst <= 3.0 { "3" } else if worst <= 4.0 { "4" } else if worst <= 6.0 { "6" } else if worst <= 8.0 { "8" } else if worst <= 12.0 { "12" } else if worst <= 16.0 { "16" } else { "inf" }));
     }
     if homog && n > 4 * (2 * c.k as usize + 30) {
@@ -269,7 +292,7 @@ pub fn def() -> PropDef {
         subs: vec![
             Box::new(PropSub {
                 name: "size_and_accuracy",
-                rule: "k 10..=500; 1..6 part digests of 1..2 runs each (uniform, sorted, reversed, duplicates, clusters, log-uniform; up to 20k values per run in quick), merged by folding or as a balanced tree; structure (centroid count <= 2k+30, image size, positive weights summing to total_weight, sorted means inside [min, max]) and rank accuracy on ~2300 probes (2000 order statistics, the 24 smallest and largest values, 200 midpoints) after every run of the streamed part, after every fold merge and at the end. non-trivial = more than 4*(2k+30) values (at least one compression)",
+                rule: "k 10..=500; 1..6 part digests of 1..2 runs each (uniform, sorted, reversed, duplicates, clusters, log-uniform, range-end values, a heavy atom inside a cloud of distinct values; up to 20k values per run in quick), merged by folding or as a balanced tree; structure (centroid count <= 2k+30, image size, positive weights summing to total_weight, sorted means inside [min, max]) and rank accuracy on ~2300 probes (2000 order statistics, the 24 smallest and largest values, 200 midpoints, the data points on either side of every atom carrying >= 2 % of the stream and half-way to them) after every run of the streamed part, after every fold merge and at the end. non-trivial = more than 4*(2k+30) values (at least one compression)",
                 cases_quick: 20_000,
                 cases_thorough: 200_000,
                 max_shrink_iters: 400,
